@@ -24,6 +24,9 @@ type E2ECase struct {
 	Batch      int
 	Slack      int
 	Rendezvous bool
+	// CancelAt >= 0: before the iterator call with this number, the iterator is called once
+	// with a context that is already cancelled; the caller then carries on with a live one
+	CancelAt int
 }
 
 func GenE2E(t *rapid.T) E2ECase {
@@ -39,6 +42,15 @@ func GenE2E(t *rapid.T) E2ECase {
 	c.Batch = rapid.IntRange(0, 5).Draw(t, "batch")
 	c.Slack = rapid.OneOf(rapid.SampledFrom([]int{0, 0, 1, 2}), rapid.IntRange(0, 150), rapid.IntRange(0, 70000)).Draw(t, "slack")
 	c.Rendezvous = rapid.Bool().Draw(t, "rendezvous")
+	c.CancelAt = -1
+	if rapid.IntRange(0, 3).Draw(t, "cancel") == 0 {
+		c.CancelAt = rapid.IntRange(0, 4).Draw(t, "cancelat")
+	}
+	if n > 0 && rapid.IntRange(0, 9).Draw(t, "window") == 0 {
+		// an entry whose encoding is within 24 bytes of the largest msize (65536): name length 65461..65473 gives 65513..65525 bytes
+		c.Entries[rapid.IntRange(0, n-1).Draw(t, "windowat")].NL = rapid.IntRange(65440, 65473).Draw(t, "windowlen")
+		c.Slack = 70000
+	}
 	return c
 }
 
@@ -95,6 +107,18 @@ func RunE2E(c E2ECase) harn.Result {
 		}
 		var got []p9p.Dir
 		for i := 0; i < len(want)+3; i++ {
+			if i == c.CancelAt {
+				cctx, cancel := context.WithCancel(ctx)
+				cancel()
+				if ds, err := rn(cctx); err == nil {
+					// an implementation may ignore the context: then these are entries like any others
+					if len(ds) == 0 {
+						done <- out{got, nil}
+						return
+					}
+					got = append(got, ds...)
+				}
+			}
 			ds, err := rn(ctx)
 			if err != nil {
 				done <- out{got, fmt.Errorf("listing failed after %d entries: %v", len(got), err)}
@@ -142,6 +166,12 @@ func RunE2E(c E2ECase) harn.Result {
 	}
 	if maxEnc > 8192 {
 		res.Classes = append(res.Classes, "entry_over_8k")
+	}
+	if maxEnc > 65536-24-11 {
+		res.Classes = append(res.Classes, "entry_within_24_of_max_msize")
+	}
+	if c.CancelAt >= 0 && c.CancelAt < len(want)+3 {
+		res.Classes = append(res.Classes, "iterator_call_cancelled")
 	}
 	return res
 }
